@@ -83,7 +83,10 @@ def _uses(node, prog, mod, fn_locals):
                 else:
                     visit(f.value, proj or norm(n))
             elif isinstance(f, ast.Name):
-                pass
+                if f.id not in _WHOLE_CALLS and len(n.args) == 1 and not n.keywords and isinstance(n.args[0], ast.Name):
+                    # f(x) of a plain function is a projection of x (type(x), len(x), str(x), C(x) ...)
+                    visit(n.args[0], proj or norm(n))
+                    return
             else:
                 visit(f, None)
             for a in n.args:
@@ -198,12 +201,58 @@ def find_memo_sites(fi: FuncInfo):
     return out
 
 
+def _key_constants(key, locs):
+    """positions of a literal tuple key that hold a constant (a global name such as a class, or a literal)"""
+    if not isinstance(key, ast.Tuple):
+        return None
+    out = {}
+    for i, e in enumerate(key.elts):
+        if isinstance(e, ast.Constant):
+            out[i] = repr(e.value)
+        elif isinstance(e, ast.Name) and e.id not in locs:
+            out[i] = e.id
+    return len(key.elts), out
+
+
+def check_site_separation(rep, rule, by_cache):
+    """Stores into one memo from different sites that compute different things must not be able to collide:
+    their keys have different lengths or differ in a constant component."""
+    for (owner, cache), sites in by_cache.items():
+        for i in range(len(sites)):
+            for j in range(i + 1, len(sites)):
+                (fi1, n1, k1, v1, l1), (fi2, n2, k2, v2, l2) = sites[i], sites[j]
+                if v1 == v2:
+                    continue
+                c1, c2 = _key_constants(k1, l1), _key_constants(k2, l2)
+                if c1 is None or c2 is None:
+                    continue  # not literal tuples: undecided here
+                if c1[0] != c2[0] or any(p in c2[1] and c2[1][p] != t for p, t in c1[1].items()):
+                    rep.ok(rule, (fi1, n1), f"memo {cache}: keys `{norm(k1)}` and `{norm(k2)}` of two different computations cannot collide")
+                    continue
+                rep.violation(
+                    rule,
+                    (fi2, n2),
+                    f"{cache}[{norm(k2)}] = {v2}  vs  {cache}[{norm(k1)}] = {v1}",
+                    f"memo {cache} stores `{v1}` under `{norm(k1)}` (line {n1.lineno}) and `{v2}` under `{norm(k2)}`: the two keys have the same "
+                    "length and no differing constant component, so one computation can be handed the other's entry",
+                )
+
+
 def check_memo_keys(ctx, rep, rule, modules, min_sites=1, only_functions=None):
     prog = ctx.prog
     n_sites = 0
     for mn in modules:
         mod = prog.module(mn)
         funcs = list(mod.functions.values()) + [f for c in mod.classes.values() for f in c.all_defs]
+        by_cache = {}
+        for fi in funcs:
+            if only_functions and fi.qualname not in only_functions:
+                continue
+            for cache, keys, vals, node in find_memo_sites(fi):
+                if cache.startswith("self.") and len(keys) == 1 and len(vals) == 1 and isinstance(vals[0], ast.Call):
+                    owner = fi.qualname.rsplit(".", 1)[0]
+                    by_cache.setdefault((owner, cache), []).append((fi, node, keys[0], norm(vals[0].func), _fn_locals(fi.node)))
+        check_site_separation(rep, rule, by_cache)
         for fi in funcs:
             if only_functions and fi.qualname not in only_functions:
                 continue
@@ -282,6 +331,12 @@ class Alg:
         r = self._memo[o] = self.build(o, a)
         return r
 
+    def bad_shared_a(self, o, n):
+        return self._rules_cache.setdefault((Alg, n), RulesA(n))(o)
+
+    def bad_shared_b(self, o, n):
+        return self._rules_cache.setdefault((Alg, n), RulesB(n))(o)
+
     def bad_built_in_place(self, element, op):
         ends = self._ends.get(element)
         if ends is None:
@@ -306,8 +361,8 @@ def memo_rule(ctx, rep, rule, modules, min_sites=0):
     probe = Report("probe")
     check_memo_keys(ctx, probe, "probe", [name], min_sites=0)
     flagged = {f.scope.split(".")[-1] for f in probe.findings}
-    if flagged != {"bad", "bad_built_in_place"}:
-        raise AnalysisError(f"memo-key positive control: flagged {sorted(flagged)}, expected ['bad', 'bad_built_in_place']")
+    if flagged != {"bad", "bad_built_in_place", "bad_shared_b"}:
+        raise AnalysisError(f"memo-key positive control: flagged {sorted(flagged)}, expected ['bad', 'bad_built_in_place', 'bad_shared_b']")
     n = check_memo_keys(ctx, rep, rule, modules, min_sites=min_sites)
     nf = sum(len(prog.module(m).functions) + sum(len(c.all_defs) for c in prog.module(m).classes.values()) for m in modules)
     rep.ok(rule, prog.module(modules[0]).relpath if hasattr(prog.module(modules[0]), "relpath") else modules[0], f"memo-key rule: {nf} functions of {modules} scanned, {n} memo sites; positive control flagged")
